@@ -34,6 +34,18 @@
 (* observed): it may be dispatched again -- it then re-enters the memory as    *)
 (* the newest -- or an endpoint with a longer memory may suppress it.          *)
 (*                                                                         *)
+(* Life of the circuit: `alive` is "pending" when the endpoint has created    *)
+(* the circuit but the handshake is not finished (HippoClientSession.           *)
+(* open_circuit: is_alive = False), "alive" after it (connect() sets it once    *)
+(* UseCircuitCode is acked; a bare Circuit starts like this), "dead" after      *)
+(* disconnect().  Reception -- acknowledging, de-duplicating, dispatching --    *)
+(* and sending do NOT depend on pending/alive: every reliable packet that       *)
+(* arrives is acknowledged each time from the first datagram on.  For a dead    *)
+(* circuit the property says nothing; the spec transcribes the unchanged code   *)
+(* as an ASSUMPTION: pending sends are orphaned (never complete, never fail,     *)
+(* never resent), packet IDs start over, reception goes on as before; no send    *)
+(* or clock step is driven on a dead circuit.                                    *)
+(*                                                                         *)
 (* Layers: pend/seen are the mechanism (unacked table with tries/age,        *)
 (* dedupe memory); rR..dU, ackedSince, xmits, relIssued, ids are ghost       *)
 (* history variables in which the invariants restate the property.           *)
@@ -57,11 +69,15 @@ VARIABLES seen,        \* de-duplication memory: the last <= Window distinct inb
           xmits,       \* ghost: set of <<id, number of transmissions>>
           ids,         \* ghost: sequence of every packet ID issued, in order of issue
           lastId,      \* highest packet ID issued (-1: none)
+          alive,       \* "pending" | "alive" | "dead"
+          abandoned,   \* ids of reliable sends orphaned by disconnect(): their futures stay pending for ever
+          epoch,       \* ghost: Len(ids) at the disconnect (packet IDs start over there), 0 before
           subs,        \* per level: the subscribers registered after the permanent one, <<[k |-> kind, live |-> BOOLEAN]..>>
           out          \* observable output of the last step
 
-vars == <<seen, evN, rR, aR, dR, rU, dU, pend, done, failed, relIssued, ackedSince, xmits, ids, lastId, subs, out>>
-core == <<seen, evN, rR, aR, dR, rU, dU, pend, done, failed, relIssued, ackedSince, xmits, ids, lastId, subs>>
+vars == <<seen, evN, rR, aR, dR, rU, dU, pend, done, failed, relIssued, ackedSince, xmits, ids, lastId, alive, abandoned, epoch, subs, out>>
+core == <<seen, evN, rR, aR, dR, rU, dU, pend, done, failed, relIssued, ackedSince, xmits, ids, lastId, alive, abandoned, epoch, subs>>
+life == <<alive, abandoned, epoch>>
 
 Get(f, k) == IF k \in DOMAIN f THEN f[k] ELSE 0
 Inc(f, k, n) == [x \in DOMAIN f \cup {k} |-> IF x = k THEN Get(f, k) + n ELSE f[x]]
@@ -99,9 +115,23 @@ Dispatch(deliver, match) ==
 CallsOf(deliver, match) == [l \in Levels |-> [i \in 1..Len(subs[l]) |->
                                IF deliver /\ match /\ i \in MustCall(subs[l]) THEN 1 ELSE 0]]
 
-Init == /\ seen = <<>> /\ evN = <<>> /\ rR = <<>> /\ aR = <<>> /\ dR = <<>> /\ rU = <<>> /\ dU = <<>>
+InitWith(a) ==
+        /\ alive = a /\ abandoned = {} /\ epoch = 0
+        /\ seen = <<>> /\ evN = <<>> /\ rR = <<>> /\ aR = <<>> /\ dR = <<>> /\ rU = <<>> /\ dU = <<>>
         /\ pend = {} /\ done = {} /\ failed = {} /\ relIssued = {} /\ ackedSince = {} /\ xmits = {}
         /\ ids = <<>> /\ lastId = -1 /\ subs = [l \in Levels |-> <<>>] /\ out = NoOut
+Init == InitWith("pending")       \* as the client endpoint creates its circuits
+
+(* The handshake completes (connect(): is_alive = True).  Nothing observable happens.        *)
+GoAlive == /\ alive = "pending" /\ alive' = "alive"
+           /\ UNCHANGED <<seen, evN, rR, aR, dR, rU, dU, pend, done, failed, relIssued, ackedSince, xmits, ids, lastId, abandoned, epoch, subs>>
+           /\ out' = NoOut
+(* disconnect() -- the unchanged code, as an assumption: pending sends are orphaned, IDs start over. *)
+Disconnect == /\ alive # "dead" /\ alive' = "dead"
+              /\ abandoned' = abandoned \cup PendIds /\ pend' = {}
+              /\ lastId' = -1 /\ epoch' = Len(ids)
+              /\ UNCHANGED <<seen, evN, rR, aR, dR, rU, dU, done, failed, relIssued, ackedSince, xmits, ids, subs>>
+              /\ out' = NoOut
 
 (* A datagram from the peer: packet ID p, reliable flag rel, carrying the set `acks` of      *)
 (* acknowledged IDs (in whichever form).  aid = the packet ID the endpoint gives to the     *)
@@ -115,7 +145,7 @@ Recv(p, rel, acks, aid, match, redeliver) ==
     /\ pend' = {e \in pend : e.id \notin hit}
     /\ done' = done \cup hit
     /\ ackedSince' = ackedSince \cup hit
-    /\ UNCHANGED <<failed, relIssued, xmits>>
+    /\ UNCHANGED <<failed, relIssued, xmits, life>>
     /\ IF rel
        THEN /\ aid > lastId
             /\ lastId' = aid /\ ids' = Append(ids, aid)
@@ -134,8 +164,9 @@ Recv(p, rel, acks, aid, match, redeliver) ==
 
 (* A further subscriber of kind k is registered at level l (after everything registered there before). *)
 Subscribe(l, k) ==
+    /\ alive # "dead"
     /\ subs' = [subs EXCEPT ![l] = Append(@, [k |-> k, live |-> TRUE])]
-    /\ UNCHANGED <<seen, evN, rR, aR, dR, rU, dU, pend, done, failed, relIssued, ackedSince, xmits, ids, lastId>>
+    /\ UNCHANGED <<seen, evN, rR, aR, dR, rU, dU, pend, done, failed, relIssued, ackedSince, xmits, ids, lastId, life>>
     /\ out' = [NoOut EXCEPT !.calls = [ll \in Levels |-> [i \in 1..Len(subs'[ll]) |-> 0]]]
 
 (* A datagram from an address that is not the peer's: whatever it carries, nothing happens. *)
@@ -143,19 +174,21 @@ Stray == /\ UNCHANGED core /\ out' = NoOut
 
 (* send_reliable(): the endpoint takes packet ID id for a new reliable message.             *)
 SendRel(id) ==
+    /\ alive # "dead"
     /\ id > lastId
     /\ lastId' = id /\ ids' = Append(ids, id)
     /\ pend' = pend \cup {[id |-> id, tries |-> Budget, age |-> 0]}
     /\ relIssued' = relIssued \cup {id}
     /\ xmits' = xmits \cup {<<id, 1>>}
-    /\ UNCHANGED <<seen, evN, rR, aR, dR, rU, dU, done, failed, ackedSince, subs>>
+    /\ UNCHANGED <<seen, evN, rR, aR, dR, rU, dU, done, failed, ackedSince, subs, life>>
     /\ out' = [NoOut EXCEPT !.tx = {[id |-> id, rel |-> TRUE, resent |-> FALSE]}]
 
 (* send() of an unreliable message: takes an ID, nothing to track.                          *)
 SendUnrel(id) ==
+    /\ alive # "dead"
     /\ id > lastId
     /\ lastId' = id /\ ids' = Append(ids, id)
-    /\ UNCHANGED <<seen, evN, rR, aR, dR, rU, dU, pend, done, failed, relIssued, ackedSince, xmits, subs>>
+    /\ UNCHANGED <<seen, evN, rR, aR, dR, rU, dU, pend, done, failed, relIssued, ackedSince, xmits, subs, life>>
     /\ out' = [NoOut EXCEPT !.tx = {[id |-> id, rel |-> FALSE, resent |-> FALSE]}]
 
 (* The clock advances by d and the resend pass runs: every pending send whose last          *)
@@ -166,11 +199,12 @@ Tick(d) ==
     LET due == {e \in pend : Due(e, d)}
         dead == {e \in due : e.tries = 1}
         again == due \ dead IN
+    /\ alive # "dead"
     /\ pend' = {[e EXCEPT !.age = e.age + d] : e \in pend \ due}
                \cup {[id |-> e.id, tries |-> e.tries - 1, age |-> 0] : e \in again}
     /\ failed' = failed \cup {e.id : e \in dead}
     /\ xmits' = {IF x[1] \in {e.id : e \in again} THEN <<x[1], x[2] + 1>> ELSE x : x \in xmits}
-    /\ UNCHANGED <<seen, evN, rR, aR, dR, rU, dU, done, relIssued, ackedSince, ids, lastId, subs>>
+    /\ UNCHANGED <<seen, evN, rR, aR, dR, rU, dU, done, relIssued, ackedSince, ids, lastId, subs, life>>
     /\ out' = [NoOut EXCEPT !.tx = {[id |-> e.id, rel |-> TRUE, resent |-> TRUE] : e \in again},
                             !.failed = {e.id : e \in dead}]
 
@@ -202,7 +236,9 @@ OneShotOnce == [][\A l \in Levels : \A i \in 1..Len(subs[l]) :
 
 \* a reliable send is in exactly one of the three states
 Partition == /\ PendIds \cap done = {} /\ PendIds \cap failed = {} /\ done \cap failed = {}
-             /\ PendIds \cup done \cup failed = relIssued
+             /\ PendIds \cup done \cup failed \cup abandoned = relIssued
+             /\ abandoned \cap (PendIds \cup done \cup failed) = {}
+             /\ (abandoned # {} => alive = "dead") /\ (alive = "dead" => pend = {})
              /\ Cardinality(pend) = Cardinality(PendIds)
 \* completes exactly when an acknowledgement carrying its ID arrives (while it is waiting for one)
 DoneIffAcked == done = ackedSince
@@ -211,8 +247,12 @@ FailedIffSpent == /\ \A id \in failed : Xm(id) = Budget /\ id \notin ackedSince
                   /\ \A e \in pend : Xm(e.id) = Budget - e.tries + 1
                   /\ \A id \in relIssued : Xm(id) <= Budget
 \* packet IDs are strictly increasing
-IdsIncreasing == \A i \in 1..(Len(ids) - 1) : ids[i] < ids[i + 1]
-LastIsLast == lastId = (IF ids = <<>> THEN -1 ELSE ids[Len(ids)])
+\* (on a live circuit: they start over where it was disconnected)
+IdsIncreasing == \A i \in 1..(Len(ids) - 1) : i # epoch => ids[i] < ids[i + 1]
+LastIsLast == lastId = (IF Len(ids) = epoch THEN -1 ELSE ids[Len(ids)])
+\* reception does not wait for the handshake: whatever `alive` is, every receipt so far was acknowledged
+\* (AckEveryReceipt holds in every state of every life; this names the states it is about)
+AckedWhilePending == alive = "pending" => \A p \in DOMAIN rR : aR[p] = rR[p]
 \* outcomes are final
 Final == [][done \subseteq done' /\ failed \subseteq failed']_vars
 =============================================================================
